@@ -1158,6 +1158,22 @@ def directed_plans(prop, profile):
                  "oracle": []}],
         "timeout": 900.0}))
   if profile == "ec" and prop in ("C17",):
+    # F5b: a pair beyond max_diff, alone and with healthy keys added (the
+    # all-checks call builds a table that grows with the batch)
+    c = A.curve_by_name("secp224r1")
+    d1 = r.randrange(2**64, int(c.n) - 2**64)
+    pair = [A.ec_from_priv(c, d1, "far_diff", delta=600000, role="a", pair=0),
+            A.ec_from_priv(c, d1 + 600000, "far_diff", delta=-600000, role="b",
+                           pair=0)]
+    hs = [A.ec_healthy(r, c), A.ec_healthy(r, c)]
+    out.append(("directed-far-pair-plus-healthy", {
+        "engine": "A", "kind": "ec", "profile": "ec", "focus": prop,
+        "knobs": {"clock_seed": 9, "max_diff": 256, "denylist": {}},
+        "pool": pair + hs, "initial_annotations": {},
+        "ops": [{"op": "check_all", "batch": [0, 1], "log_level": 0,
+                 "oracle": [{"relation": "plus", "order": [0, 1, 2, 3]}]}],
+        "timeout": 600.0}))
+  if profile == "ec" and prop in ("C17",):
     # F5: overshoot zone of BatchDL; alone in a fresh process vs after a batch
     c = A.curve_by_name("secp256r1")
     over = A.ec_from_priv(c, 4296000001, "overshoot", v=4296000001, mult="01")
